@@ -177,6 +177,19 @@ let run () =
                 | Some s' -> st := Some s'
                 | None -> diverge "model rejects the release (not a live allocation of that size, or events during release)" line)
              | _ -> ())
+          | "rs" :: sz :: _ ->
+            (* memory_pool_collection::reserve: only events; what was taken from the block must have gone to the pool *)
+            (match !st, rhs with
+             | Some s, "reserved" :: _ ->
+               incr ops;
+               (match acc_evs s events with
+                | Some s' ->
+                  st := Some s'; track_blocks events;
+                  let ns = bucket (int_of_string sz) in
+                  if not (List.exists (function EIns (n, _, _) -> iz n = ns | _ -> false) events) then diverge "reserve() handed nothing to the pool" line
+                | None -> diverge "reserve(): an inserted range / upstream block was rejected" line)
+             | Some s, "throw" :: _ -> (match acc_evs s events with Some s' -> st := Some s'; track_blocks events | None -> diverge "reserve(): events rejected" line)
+             | _ -> ())
           | "foreign_tdn" :: _ ->
             incr ops;
             (match rhs with "true" :: _ -> diverge "try_deallocate accepted memory the allocator does not own" line | _ -> ())
@@ -205,7 +218,7 @@ let run () =
               let size = (match lhs with
                   | ("an" | "tn") :: sz :: _ -> int_of_string sz
                   | ("aa" | "ta") :: _ :: sz :: _ -> int_of_string sz
-                  | "q" :: sz :: _ -> int_of_string sz
+                  | ("q" | "rs") :: sz :: _ -> int_of_string sz
                   | ("dn" | "da" | "tdn" | "tda") :: _ -> (match rhs with _ :: _ :: _ :: _ :: sz :: _ -> int_of_string sz | _ -> 0)
                   | _ -> 0) in
               if size > 0 && size <= !max_node then
@@ -530,7 +543,7 @@ let run_exec_coll (dbl : bool) (fence : int) =
              | Some m when m <> iz (if pt = "small" then sc_max !log2 mxz else coll_max !log2 mxz) -> diverge "max_node_size differs from the model's" line | _ -> ());
             check_caps 0 caps line
           | ("pool" | "coll") :: _, _ -> drop ()
-          | ("ma" | "mfa" | "mv") :: _, _ -> drop ()
+          | ("ma" | "mfa" | "mv") :: _, _ -> ()        (* a move leaves the collection's state as it was (its lists live in the first block): the lock-step goes on *)
           | (("an" | "tn" | "aa" | "ta") as o) :: args, res :: _ when live () ->
             let (count, size, al) = (match args with
                 | [c; sz; a] -> (int_of_string c, int_of_string sz, int_of_string a)
@@ -551,6 +564,22 @@ let run_exec_coll (dbl : bool) (fence : int) =
                (let (a, b, c) = before in ust := a; ost := b; sst := c);
                if events = [] && (res = "throw" || res = "null") then check_caps size caps line
                else (incr stuck; diverge "the model does not describe this call (an assertion of the implementation would fire)" line; drop ()))
+          | "rs" :: sz :: cp :: _, res :: _ when live () && res <> "none" ->
+            let size = int_of_string sz and cap = int_of_string cp in
+            let answer = (match answers events with a :: _ -> a | [] -> None) in
+            let r = (match !ust, !ost, !sst with
+                | Some s, _, _ -> (match uc_reserve !log2 s (zi size) (zi cap) answer with Some ((s', ok), evs) -> ust := Some s'; Some (ok, evs) | None -> None)
+                | _, Some s, _ -> (match oc_reserve !log2 s (zi size) (zi cap) answer with Some ((s', ok), evs) -> ost := Some s'; Some (ok, evs) | None -> None)
+                | _, _, Some s -> (match sc_reserve !log2 s (zi size) (zi cap) answer with Some ((s', ok), evs) -> sst := Some s'; Some (ok, evs) | None -> None)
+                | _ -> None) in
+            (match r with
+             | Some (ok, mev) ->
+               incr steps;
+               if mev <> events then diverge (Printf.sprintf "reserve: model events [%s]" (show_evs mev)) line;
+               if ok <> (res = "reserved") then diverge "reserve: outcome differs from the model's" line;
+               List.iter (function EUp _ -> incr grows | _ -> ()) mev;
+               check_caps size caps line
+             | None -> incr stuck; diverge "reserve: the model does not describe this call (an assertion of the implementation would fire)" line; drop ())
           | ("dn" | "da" | "tdn" | "tda") :: _, "true" :: p :: kind :: c :: sz :: _ when live () ->
             let size = int_of_string sz in
             let bytes = if kind = "node" then size else int_of_string c * size in
